@@ -287,8 +287,15 @@ def mdd_reuse(ctx, lens, reps):
             s.op(A, 'apply', name, a, b, None)
             s.op(A, 'gc')
             # same first operand (same shape, so it tends to get the same number back)
-            ta2 = ta if rng.random() < 0.6 else tuple(rng.random() < 0.5 for _ in space)
-            tb2 = tuple(rng.random() < 0.5 for _ in space)
+            # (the first entry fixes the sign of the reference: keep it, so that the new
+            # operands take the freed numbers in the same roles and with the same signs)
+            def like(t):
+                while True:
+                    t2 = (t[0],) + tuple(rng.random() < 0.5 for _ in space[1:])
+                    if len(set(t2)) > 1 or len(space) == 1:
+                        return t2
+            ta2 = ta if rng.random() < 0.3 else like(ta)
+            tb2 = like(tb)
             a2, b2 = build(ta2), build(tb2)
             if a2 is None or b2 is None:
                 continue
@@ -306,7 +313,7 @@ def mdd_reuse(ctx, lens, reps):
 def run(ctx):
     q = ctx.quick
     for lens in ([2], [3], [4], [2, 2], [3, 2]):
-        mdd_reuse(ctx, lens, (25 if len(lens) == 1 else 6) if q else 80)
+        mdd_reuse(ctx, lens, (30 if len(lens) == 1 else 10) if q else 100)
     rng = ctx.rng
     shapes = [[1], [2], [3], [1, 1], [2, 1], [1, 2], [2, 2], [3, 2], [1, 1, 1], [2, 1, 2], [2, 2, 2], [3, 2, 1]]
     for shape in shapes:
